@@ -113,6 +113,71 @@ func main() {
 		}
 	}
 
+	// raftwal.hsAfterEntries: peer.handleReady persists p.storage.Append(rd.Entries) before
+	// p.storage.SetHardState(rd.HardState) (etcd/raft: "Entries first, then HardState").
+	{
+		anchor := "raftstore/peer/peer.go:handleReady"
+		fd := pr.Func("Peer.handleReady")
+		a := pr.CallIndex(body(fd), "p.storage.Append")
+		h := pr.CallIndex(body(fd), "p.storage.SetHardState")
+		o.Set("raftwal.hsAfterEntries", anchor, fmt.Sprint(a >= 0 && h >= 0 && a < h), fd != nil && a >= 0 && h >= 0, "false")
+	}
+	// raftwal.bootstrapChecksHardState: Peer.Bootstrap returns early (no RawNode.Bootstrap) when the
+	// recovered hard state is not empty — `!myraft.IsEmptyHardState(hs)` in a condition whose body returns.
+	{
+		anchor := "raftstore/peer/peer.go:Bootstrap"
+		fd := pr.Func("Peer.Bootstrap")
+		checks := false
+		for _, c := range pr.IfWithBodyContaining(body(fd), "return nil") {
+			if strings.Contains(c, "!myraft.IsEmptyHardState(hs)") {
+				checks = true
+			}
+		}
+		o.Set("raftwal.bootstrapChecksHardState", anchor, fmt.Sprint(checks), fd != nil && pr.HasCall(body(fd), "p.node.Bootstrap"), "true")
+	}
+	// raftwal.replayLengthBound: WAL replay accepts any record length the file holds: replayFile
+	// only calls Next/Length/Type/Record/Err/Close on its iterator and DecodeRecord compares the
+	// length prefix with nothing but 0.
+	{
+		anchor := "wal/manager.go:replayFile + wal/record.go:DecodeRecord"
+		rf := wm.Func("Manager.replayFile")
+		bounded := false
+		okShape := rf != nil
+		if rf != nil {
+			for _, c := range wm.Calls(rf.Body) {
+				if strings.HasPrefix(c, "reIter.") {
+					switch c {
+					case "reIter.Next", "reIter.Length", "reIter.Type", "reIter.Record", "reIter.Err", "reIter.Close":
+					default:
+						bounded = true
+					}
+				}
+			}
+		}
+		rec := o.Load("wal/record.go")
+		found := false
+		for _, d := range rec.AST.Decls {
+			fd, ok := d.(*ast.FuncDecl)
+			if !ok || fd.Body == nil {
+				continue
+			}
+			if fd.Name.Name != "DecodeRecord" && fd.Name.Name != "decodeRecord" {
+				continue
+			}
+			found = true
+			for _, c := range rec.Comparisons(fd.Body) {
+				if (c.X == "length" && !(c.Op == "eq" && c.Y == "0")) || c.Y == "length" {
+					bounded = true
+				}
+			}
+		}
+		v := "none"
+		if bounded {
+			v = "bounded"
+		}
+		o.Set("raftwal.replayLengthBound", anchor, v, okShape && found, "none")
+	}
+
 	extractC36(o)
 
 	f := o.Facts
@@ -124,10 +189,10 @@ namespace NoKV.Generated.Raftwal
 open NoKV NoKV.Raftwal
 
 def cfg : Cfg :=
-  { flushOnAppend := %s, syncFlushes := %s, sendAfterPersist := %s }
+  { flushOnAppend := %s, syncFlushes := %s, sendAfterPersist := %s, hsAfterEntries := %s }
 
 %s
 end NoKV.Generated.Raftwal
-`, f["raftwal.flushOnAppend"], f["raftwal.syncFlushes"], f["raftwal.sendAfterPersist"], leanC36(f))
+`, f["raftwal.flushOnAppend"], f["raftwal.syncFlushes"], f["raftwal.sendAfterPersist"], f["raftwal.hsAfterEntries"], leanC36(f))
 	o.Write(*jsonOut, *leanOut, lean)
 }
